@@ -420,3 +420,13 @@ M('c04-size-same', 'C04', SUBC, "                TruthTableModel(outputs_tt),\n 
 M('c04-size-basis', 'C04', SUBC, "                size - 1,\n                basis=_basis,", "                size - 1,", 'C04.SIZE')
 M('c04-size-all-outputs', 'C04', SUBC, "            if subcircuit.outputs[i] in filtered_outputs\n        ]", "            if subcircuit.outputs[i] in subcircuit.outputs\n        ]", 'C04.SIZE')
 M('c04-twin-rename', 'C04', SUBC, "    initial_circuit: Circuit = copy.deepcopy(circuit)", "    initial_circuit = copy.deepcopy(circuit)", None)
+
+# C12.FOLD
+M('c12-fold-sym-range', 'C12', TTB, "        for number_of_true in range(self.input_size + 1):\n\n            _iter = iter(input_iterator_with_fixed_sum(self.input_size, number_of_true))\n            value: bool = self.evaluate_at(next(_iter), output_index)", "        for number_of_true in range(self.input_size - 1):\n\n            _iter = iter(input_iterator_with_fixed_sum(self.input_size, number_of_true))\n            value: bool = self.evaluate_at(next(_iter), output_index)", 'C12.FOLD')
+M('c12-fold-dep-insert', 'C12', CIRC, "            _x = list(x)\n            _x.insert(input_index, False)\n            value1 = self.evaluate_at(_x, output_index)", "            _x = list(x)\n            _x.insert(0, False)\n            value1 = self.evaluate_at(_x, output_index)", 'C12.FOLD')
+M('c12-fold-eq-input', 'C12', PYF, "            output_value = self.evaluate_at(x, output_index)\n            input_value = x[input_index]", "            output_value = self.evaluate_at(x, output_index)\n            input_value = x[-1 - input_index]", 'C12.FOLD')
+M('c12-fold-constant-first', 'C12', TTB, "        first_value = self._table[output_index][0]\n        for value in self._table[output_index]:", "        first_value = self._table[output_index][0]\n        for value in self._table[output_index][:-1]:", 'C12.FOLD')
+M('c12-fold-monotone-inverse', 'C12', CIRC, "        change_value: bool = False\n        current_value: bool = inverse", "        change_value: bool = False\n        current_value: bool = False", 'C12.FOLD')
+M('c12-fold-negations-output-filter', 'C12', PYF, "            return [result[idx] for idx in output_index]\n\n        for negations in itertools.product((False, True), repeat=self.input_size):\n            symmetric = True", "            return [result[idx] for idx in output_index[:1]]\n\n        for negations in itertools.product((False, True), repeat=self.input_size):\n            symmetric = True", 'C12.FOLD')
+M('c12-fold-twin-generator', 'C12', TTB, "        return all(self.is_constant_at(i) for i in range(self.output_size))", "        return all([self.is_constant_at(i) for i in range(self.output_size)])", None)
+M('c12-twin-sym-trivial-classes', 'C12', TTB, "        for number_of_true in range(self.input_size + 1):\n\n            _iter = iter(input_iterator_with_fixed_sum(self.input_size, number_of_true))\n            value: bool = self.evaluate_at(next(_iter), output_index)", "        for number_of_true in range(1, self.input_size):\n\n            _iter = iter(input_iterator_with_fixed_sum(self.input_size, number_of_true))\n            value: bool = self.evaluate_at(next(_iter), output_index)", None)
